@@ -5,6 +5,7 @@ import Katib.Drv.Sim
 import Katib.Drv.C19
 import Katib.Drv.C15
 import Katib.Drv.C08S
+import Katib.Drv.C07J
 import Katib.Drv.C10
 import Katib.Drv.C17
 import Katib.Drv.C13
@@ -20,11 +21,13 @@ open Katib Katib.Drv
 def handle (toks : List String) : String :=
   match toks with
   | "C11" :: r => handleC11 r
+  | "C11F" :: r => handleC11F r
   | "C05" :: r => handleStatus r
   | "C03" :: r => handleStatus r
   | "C19" :: r => handleC19 r
   | "C15" :: r => handleC15 r
   | "C08S" :: r => handleC08S r
+  | "C07J" :: r => handleC07J r
   | "C10" :: r => handleC10 r
   | "C17" :: r => handleC17 r
   | "C13" :: r => handleC13 r
@@ -39,11 +42,13 @@ def handle (toks : List String) : String :=
 def handleOracle (toks out : List String) : String :=
   match toks with
   | "C11" :: r => oracleLineC11 r out
+  | "C11F" :: r => oracleLineC11F r out
   | "C05" :: r => oracleLineStatus "C05" r out
   | "C03" :: r => oracleLineStatus "C03" r out
   | "C19" :: r => oracleLineC19 r out
   | "C15" :: r => oracleLineC15 r out
   | "C08S" :: r => oracleLineC08S r out
+  | "C07J" :: r => oracleLineC07J r out
   | "C10" :: r => oracleLineC10 r out
   | "C17" :: r => oracleLineC17 r out
   | "C13" :: r => oracleLineC13 r out
